@@ -173,7 +173,7 @@ theorem findFree_sim {ft : FatType} {f : Array Nat} {total : Nat} (ht : TableOk 
   cases ft
   · simp only [InRange, off, width] at hs
     simp only [findFree, findFree12]
-    rw [if_neg (by omega), if_neg (by omega)]
+    rw [if_neg (by omega), if_neg (by omega), if_neg (by omega)]
     have hlast := ht.covers (e - 1) (by omega)
     simp only [InRange, off, width] at hlast
     exact findFreeLoop12_sim f ht.wf e (e - s) s (f.size + 2) (by omega) (by omega) (by omega)
@@ -187,6 +187,11 @@ theorem findFree_sim {ft : FatType} {f : Array Nat} {total : Nat} (ht : TableOk 
     rw [if_neg (by omega)]
     exact findFreeLoop32_sim f (e - s) s (fun i h1 h2 => ht.plain (by omega))
 
+/-- FAT12 on an empty range: NotEnoughSpace before anything is computed or read (F21 repair) -/
+theorem findFree_empty12 (f : Array Nat) (s e : Nat) (h : e ≤ s) : findFree .fat12 f s e = .error .noSpace := by
+  simp only [findFree, findFree12]
+  rw [if_pos h]
+
 /-- FAT16/32 also for an empty range (`while cluster < end`): NotEnoughSpace without reading -/
 theorem findFree_empty16 (f : Array Nat) (s e : Nat) (h : e ≤ s) (hs : s * 2 < u32Lim) :
     findFree .fat16 f s e = .error .noSpace := by
@@ -197,6 +202,22 @@ theorem findFree_empty32 (f : Array Nat) (s e : Nat) (h : e ≤ s) (hs : s * 4 <
     findFree .fat32 f s e = .error .noSpace := by
   simp only [findFree, findFree32]
   rw [if_neg (by omega), show e - s = 0 by omega]; rfl
+
+/-- `find_free_cluster` on ANY range `[s, e)` with `s ≤ e ≤ total+2` of a sane table = the view-level scan
+    (the empty range gives NotEnoughSpace for all three widths) -/
+theorem findFree_sim_le {ft : FatType} {f : Array Nat} {total : Nat} (ht : TableOk ft f total) {s e : Nat}
+    (hse : s ≤ e) (he : e ≤ total + 2) :
+    findFree ft f s e = scanRes (findFreeV (view ft f) s (e - s)) := by
+  by_cases hlt : s < e
+  · exact findFree_sim ht hlt he
+  · have hes : e ≤ s := by omega
+    have hsm := ht.small
+    rw [show e - s = 0 by omega]
+    simp only [findFreeV, scanRes]
+    cases ft
+    · exact findFree_empty12 f s e hes
+    · exact findFree_empty16 f s e hes (by simp only [badMark, u32Lim] at *; omega)
+    · exact findFree_empty32 f s e hes (by simp only [badMark, u32Lim] at *; omega)
 
 
 /-! ### count_free -/
@@ -330,13 +351,13 @@ theorem countFree_sim {ft : FatType} {f : Array Nat} {total : Nat} (ht : TableOk
 
 theorem allocStart_eq (hint : Option Nat) (total : Nat) : allocStart hint (total + 2) = allocStartV hint total := rfl
 
-theorem allocFind_sim {ft : FatType} {f : Array Nat} {total : Nat} (ht : TableOk ft f total) (hint : Option Nat)
-    (hstart : allocStartV hint total < total + 2) :
+theorem allocFind_sim {ft : FatType} {f : Array Nat} {total : Nat} (ht : TableOk ft f total) (hint : Option Nat) :
     allocFind ft f (allocStart hint (total + 2)) (total + 2) = scanRes (allocFindV (view ft f) hint total) := by
+  have hstart := allocStartV_le hint total
   rw [allocStart_eq]
   unfold allocFind allocFindV
   generalize allocStartV hint total = start at *
-  rw [findFree_sim ht hstart (Nat.le_refl _)]
+  rw [findFree_sim_le ht hstart (Nat.le_refl _)]
   cases h1 : findFreeV (view ft f) start (total + 2 - start) with
   | some c => rfl
   | none =>
@@ -393,7 +414,7 @@ theorem allocLink_sim {ft : FatType} {f : Array Nat} {total c : Nat} (ht : Table
 
 /-- `alloc_cluster` succeeds exactly as the view-level allocator does -/
 theorem allocCluster_ok {ft : FatType} {f : Array Nat} {total c : Nat} (ht : TableOk ft f total)
-    (prev hint : Option Nat) (hstart : allocStartV hint total < total + 2)
+    (prev hint : Option Nat)
     (hh : ∀ n, hint = some n → 2 ≤ n) (hp : ∀ p, prev = some p → p < total + 2)
     (h : allocFindV (view ft f) hint total = some c) :
     ∃ f', allocCluster f ft prev hint total = ⟨.ok c, f'⟩ ∧ view ft f' = allocLinkV (view ft f) prev c ∧
@@ -405,17 +426,17 @@ theorem allocCluster_ok {ft : FatType} {f : Array Nat} {total c : Nat} (ht : Tab
   have hsmall := ht.small
   unfold allocCluster
   rw [if_neg (by cases ft <;> simp only [badMark, u32Lim] at * <;> omega)]
-  rw [allocFind_sim ht hint hstart, h]
+  rw [allocFind_sim ht hint, h]
   simp only [scanRes]; exact h1
 
 theorem allocCluster_noSpace {ft : FatType} {f : Array Nat} {total : Nat} (ht : TableOk ft f total)
-    (prev hint : Option Nat) (hstart : allocStartV hint total < total + 2)
+    (prev hint : Option Nat)
     (h : allocFindV (view ft f) hint total = none) :
     allocCluster f ft prev hint total = ⟨.error .noSpace, f⟩ := by
   have hsmall := ht.small
   unfold allocCluster
   rw [if_neg (by cases ft <;> simp only [badMark, u32Lim] at * <;> omega)]
-  rw [allocFind_sim ht hint hstart, h]
+  rw [allocFind_sim ht hint, h]
   rfl
 
 /-! ### ClusterIterator -/
